@@ -58,7 +58,9 @@ def gen_cases(chk):
     # make sure the interesting families are present: all-ones, ones in every position, tiny, 5-D genuine
     forced = [(1,), (1, 1), (1, 1, 1), (1, 1, 1, 1), (1, 1, 1, 1, 1), (2,), (3,), (5,), (21,), (1, 21), (21, 1), (1, 5, 1), (2, 1, 2),
               (1, 3, 4, 5, 6), (3, 1, 5, 1, 2), (1, 1, 1, 1, 30), (30, 1, 1, 1, 1), (2, 2, 2, 2, 2), (2, 3, 2, 3, 2), (3, 2, 2, 2, 5),
-              (2, 2, 3, 21), (21, 3, 2, 2), (5, 5, 5, 5), (1, 22), (22, 1, 1), (2, 11), (7, 3), (3, 7)]
+              (2, 2, 3, 21), (21, 3, 2, 2), (5, 5, 5, 5), (1, 22), (22, 1, 1), (2, 11), (7, 3), (3, 7),
+              # extents the regression kernels cut into blocks with different remainders per dimension (r % (r/16 blocks)), unit dimensions anywhere
+              (50, 40), (40, 50), (1, 50, 40), (50, 1, 40), (33, 17), (33, 1, 17, 1), (1, 100, 36), (20, 33, 18), (20, 1, 33, 18), (18, 20, 35), (1, 18, 1, 20, 35), (2, 18, 20, 35)]
     nsel = 2500 if thorough else 330
     sel = forced + cand[:nsel]
     for t in sel:
